@@ -41,7 +41,7 @@ def run_cfg(ctx, p, cfg):
         r.require(a1 is not None and any(x[0] == "call" and x[1] == "log::Metadata::<'a>::level" and deep_strip(x[2][0]) == ("param", 2) for x in walk(a1)),
                   "enabled-level-from-metadata", fn=le, detail="level argument is metadata.level(): %s" % show(a1))
         # delivery side
-        ll = p.fn(anchors.LOG_LOG)
+        ll = ro["log_log"]
         site = ro["node_log_site"]
         recv = site.arg(0)
         f2 = [c for c in calls_in(recv) if c[1] == find.path]
